@@ -668,6 +668,9 @@ package nfa
 //@   loop 1: invariant forall k :: 0 <= k && k < len(nonASCIIRanges) ==> 0x80 <= nonASCIIRanges[k][0] && nonASCIIRanges[k][0] <= nonASCIIRanges[k][1] && nonASCIIRanges[k][1] <= 0x10FFFF
 //@   loop 2: invariant forall k :: 0 <= k && k < len(nonASCIIRanges) ==> 0x80 <= nonASCIIRanges[k][0] && nonASCIIRanges[k][0] <= nonASCIIRanges[k][1] && nonASCIIRanges[k][1] <= 0x10FFFF
 //@   loop 3: invariant forall k :: 0 <= k && k < len(nonASCIIRanges) ==> 0x80 <= nonASCIIRanges[k][0] && nonASCIIRanges[k][0] <= nonASCIIRanges[k][1] && nonASCIIRanges[k][1] <= 0x10FFFF
+//@   loop 1: invariant forall k :: 0 <= k && k < len(asciiRanges) ==> asciiRanges[k].Lo <= asciiRanges[k].Hi && asciiRanges[k].Hi <= 0x7F
+//@   loop 2: invariant forall k :: 0 <= k && k < len(asciiRanges) ==> asciiRanges[k].Lo <= asciiRanges[k].Hi && asciiRanges[k].Hi <= 0x7F
+//@   after call AddByteRange#1: lastarg1 <= lastarg2 && lastarg2 <= 0x7F
 //@   after call compileUTF8Range: 0x80 <= lastarg1 && lastarg1 <= lastarg2 && lastarg2 <= 0x10FFFF
 //@   after call buildUTF8NonASCIIBranches: len(nonASCIIRanges) == 1 && nonASCIIRanges[0][0] <= 0x80 && nonASCIIRanges[0][1] >= 0x10FFFF
 
